@@ -239,3 +239,37 @@ def compare(actual, expected, rel=1e-9, scale=1.0):
         if abs(av - evf) > tol:
             bad.append((k, av, evf))
     return bad
+
+
+def expected_cov_summary(n, mx, my, sxx, syy, sxy):
+    e = {"len": Fraction(n)}
+    if n == 0:
+        for k in ("mean_x", "mean_y", "population_covariance", "sample_covariance", "pearson", "population_variance_x",
+                  "population_variance_y", "sample_variance_x", "sample_variance_y"):
+            e[k] = None
+        return e
+    e.update(mean_x=mx, mean_y=my, population_covariance=sxy / n, population_variance_x=sxx / n, population_variance_y=syy / n)
+    if n >= 2:
+        e.update(sample_covariance=sxy / (n - 1), sample_variance_x=sxx / (n - 1), sample_variance_y=syy / (n - 1))
+        if sxx > 0 and syy > 0:
+            e["pearson"] = float(sxy) / math.sqrt(float(sxx * syy))
+    else:
+        e.update(sample_covariance=None, sample_variance_x=None, sample_variance_y=None, pearson=None)
+    return e
+
+
+def expected_wmwe_summary(q, w, a, mu, n, m2):
+    e = {"len": Fraction(n), "sum_weights": w, "sum_weights_sq": q}
+    e["weighted_mean"] = a if w > 0 else None
+    e["unweighted_mean"] = mu if n > 0 else None
+    e["effective_len"] = Fraction(0) if n == 0 else (w * w / q if q > 0 else "skip")
+    e["population_variance"] = m2 / n if n > 0 else None
+    e["sample_variance"] = m2 / (n - 1) if n >= 2 else None
+    if w == 0 or n < 2:
+        e["variance_of_weighted_mean"] = None
+        e["error"] = None
+    else:
+        v = m2 / (n - 1) * q / (w * w)
+        e["variance_of_weighted_mean"] = v
+        e["error"] = sqrt_f(v)
+    return e
